@@ -34,7 +34,7 @@ fn c10_strategy() -> impl Strategy<Value = Scenario> {
     (
         (any::<bool>(), amount, prop_oneof![Just(Hints::None), Just(Hints::Other), Just(Hints::OursLast), Just(Hints::OursNotLast), Just(Hints::OtherAndOursLast)], any::<bool>()),
         field,
-        prop_oneof![6 => Just(0u8), 2 => Just(1u8), 1 => Just(2u8), 1 => Just(3u8)], // 0 valid sig, 1 bad sig, 2 not utf8, 3 not bolt11
+        prop_oneof![6 => Just(0u8), 2 => Just(1u8), 1 => Just(2u8), 1 => Just(3u8), 2 => Just(4u8), 2 => Just(5u8)], // 5 = valid, non-minimally encoded expiry; 0 valid sig, 1 bad sig, 2 not utf8, 3 not bolt11, 4 explicit payee + flipped recovery id
         prop_oneof![3 => Just(false), 1 => Just(true)],                              // hash differs
         any::<bool>(),                                                               // allow_self
         (prop_oneof![Just(0u32), Just(1000u32)], prop_oneof![Just(5000u32), Just(0u32), Just(1u32)]),
@@ -64,6 +64,8 @@ fn c10_strategy() -> impl Strategy<Value = Scenario> {
                 1 => Meta::BadSig,
                 2 => Meta::NotUtf8,
                 3 => Meta::NotBolt11,
+                4 => Meta::FlippedRecid,
+                5 => Meta::NonMinimalExpiry,
                 _ => match fbytes(&field) {
                     None => Meta::InvoiceOnly,
                     Some(b) => Meta::WithAmount(Hx(b)),
@@ -99,6 +101,7 @@ fn c10_strategy() -> impl Strategy<Value = Scenario> {
                 crash_at: vec![],
                 freeze: None,
         hold: vec![],
+        freeze_polls: false,
             };
             // fund the HTLC for whatever amount the reference classifier expects
             if let Class::Trampoline { amount, .. } = scn.classify(0) {
